@@ -4,7 +4,7 @@ import hashlib
 from hypothesis import strategies as st
 
 from vf import gen
-from vf.core import Fails, Target, attempt, bx, hx, raised
+from vf.core import Fails, Target, attempt, bx, hx, pair, raised, seq
 from vf.ref import base58 as rb58
 from vf.ref import ec
 from vf.ref import hd as ref
@@ -106,6 +106,12 @@ def _pt(x):
         return x
 
 
+def _ptpair(x):
+    """(point as a tuple, second item) of a library (point, value) pair; for any other shape a tuple that equals no expected pair."""
+    p = pair(x)
+    return (_pt(p[0]), p[1]) if p is not None else seq(None)
+
+
 def _root(case):
     return ref.XKey.from_seed(bx(case["seed"]), case["net"])
 
@@ -166,7 +172,7 @@ def check_derive(case):
         return ["ref-invalid-child"], f
     testnet = case["net"] == "test"
     m = attempt(b32.to_master_key, bx(case["seed"]))
-    ok = (not raised(m)) and tuple(m) == (root.key, root.cc)
+    ok = (not raised(m)) and seq(m) == (root.key, root.cc)
     f.expect(ok, "derive/master-ne-reference", f"{m!r}")
     rs = attempt(b32.root_serialized_extended_key, root.key, root.cc, testnet)
     d = _diff(rs, root.string())
@@ -292,7 +298,7 @@ def _check_commute_func(case):
         got = attempt(b32.CKDpub, K, c, i)
         f.expect(raised(got), "commute/CKDpub/hardened-accepted", f"returned {got!r}")
         p = attempt(b32.CKDpriv, k, c, i)
-        ok = (not raised(p)) and tuple(p) == wpriv
+        ok = (not raised(p)) and seq(p) == wpriv
         f.expect(ok, "commute/CKDpriv/ne-reference/hardened", f"{p!r}")
         return cls, f
     wpub = ref.ckd_pub(K, c, i)
@@ -300,21 +306,21 @@ def _check_commute_func(case):
         return ["ref-invalid-child"], f
     assert wpub == (ec.mul(wpriv[0], ec.G), wpriv[1])
     n = attempt(b32.N, k, c)
-    okn = (not raised(n)) and (_pt(n[0]), n[1]) == (K, c)
+    okn = (not raised(n)) and _ptpair(n) == (K, c)
     f.expect(okn, "commute/N/ne-reference", f"{n!r}")
     parent_pub = n if okn else (K, c)
     lhs = attempt(b32.CKDpub, parent_pub[0], parent_pub[1], i)
-    ok = (not raised(lhs)) and (_pt(lhs[0]), lhs[1]) == wpub
+    ok = (not raised(lhs)) and _ptpair(lhs) == wpub
     f.expect(ok, "commute/CKDpub/ne-reference", f"{lhs!r} want {wpub!r}")
     p = attempt(b32.CKDpriv, k, c, i)
-    okp = (not raised(p)) and tuple(p) == wpriv
+    okp = (not raised(p)) and seq(p) == wpriv
     f.expect(okp, "commute/CKDpriv/ne-reference/plain", f"{p!r} want {wpriv!r}")
     if okp:
         rhs = attempt(b32.N, p[0], p[1])
-        ok = (not raised(rhs)) and (_pt(rhs[0]), rhs[1]) == wpub
+        ok = (not raised(rhs)) and _ptpair(rhs) == wpub
         f.expect(ok, "commute/N-of-child/ne-reference", f"{rhs!r}")
         if not f:
-            f.expect((_pt(lhs[0]), lhs[1]) == (_pt(rhs[0]), rhs[1]), "commute/CKDpub-N-ne-N-CKDpriv", f"{lhs!r} vs {rhs!r}")
+            f.expect(_ptpair(lhs) == _ptpair(rhs), "commute/CKDpub-N-ne-N-CKDpriv", f"{lhs!r} vs {rhs!r}")
     return cls, f
 
 
